@@ -140,12 +140,17 @@ PROPS = {
                      "'resolved', 'resolved <v>' does"],
     ),
     "C16": dict(
-        units=["ids"],
-        undecided=["the restart / kill half: order of the is-oplog.valid flag, key-map and oplog writes at every crash point (crash points are not "
-                   "expressible as pre/postconditions)",
+        units=["ids", "oplogflag"],
+        undecided=["kills INSIDE one file operation (a torn key-map file, a half-written oplog record) and writes that reach the disk out of program order (no fsync anywhere): the "
+                   "crash invariant of unit oplogflag is stated at the granularity of whole file operations, between any two of which the node may be killed",
+                   "the start-up decision itself (bin/main.rs: flag 0 => clean metadata => since 0) and that the Databases value is built with the flag read from disk (in_sync at start)",
+                   "the snapshot and create-db records of the oplog carry the constant key ids 1 and 2, which are not key identifiers (only update / remove records are covered)",
                    "that the identifier maps loaded from disk satisfy the invariants (they are preconditions here)",
                    "two threads generating key ids concurrently (generate_key_id reads the length under one lock and inserts under another)"],
-        assumptions=["db_ids_small: identifiers in use are below usize::MAX", "invalidate_oplog is replaced by a shim that touches no identifier map (R8)"],
+        assumptions=["db_ids_small: identifiers in use are below usize::MAX", "unit ids: invalidate_oplog is replaced by a shim that touches no identifier map (R8); its real body is verified in unit oplogflag",
+                     "unit oplogflag: the flag file and the key-map file are modelled by an explicit token (`disk__: &mut Disk`, R6: the disk made explicit) that only the shims standing for "
+                     "`seek(0); write(&[b])` and write_keys_map_to_disk change; file operations are atomic and ordered; Oplog::try_write_op_log adds at most one record mentioning the given key id; "
+                     "the three arms of start_replication_thread are extracted with the loop's locals as parameters (R10)"],
     ),
     "C17": dict(
         units=["sessions", "consensus"],
@@ -224,8 +229,8 @@ PROPS = {
         assumptions=["Change::new stamps the resolving change with the wall clock (any u64)"],
     ),
     "C10": dict(
-        units=["store", "consensus", "security", "ids", "oplog", "pending", "parser", "sessions", "http", "election", "snapshot", "sync", "listing", "permissions", "replies"],
-        reachable={"replies": ["get_key_value", "get_key_value_safe", "arm_get", "arm_get_safe", "arm_keys"], "permissions": ["Permission::from", "Permission::permissions_from_str", "From<char>@PermissionKind::from", "has_permission"], "listing": ["Database::list_keys", "filter_system_keys", "get_function_by_pattern", "starts_with", "ends_with", "contains", "Database::list_conflicts_keys",
+        units=["store", "consensus", "security", "ids", "oplog", "pending", "parser", "sessions", "http", "election", "snapshot", "sync", "listing", "permissions", "replies", "oplogflag"],
+        reachable={"oplogflag": ["invalidate_oplog", "mark_op_log_as_valid", "snapshot_keys", "generate_key_id", "arm_replicate_set", "arm_replicate_increment", "arm_replicate_remove"], "replies": ["get_key_value", "get_key_value_safe", "arm_get", "arm_get_safe", "arm_keys"], "permissions": ["Permission::from", "Permission::permissions_from_str", "From<char>@PermissionKind::from", "has_permission"], "listing": ["Database::list_keys", "filter_system_keys", "get_function_by_pattern", "starts_with", "ends_with", "contains", "Database::list_conflicts_keys",
                                "Database::has_pendding_conflict", "Database::register_arbiter"], "sync": ["make_create_db_command", "get_full_sync_opps", "get_pendding_opps_since"], "snapshot": ["get_keys_to_update", "write_metadata_file", "load_db_metadata_from_disk_or_empty", "ConsensuStrategy::to_le_bytes", "From<i32>@ConsensuStrategy::from", "NodeDrive::storage_data_disk", "write_value", "write_key", "update_key", "write_new_key_value", "get_key_disk_size", "create_db_from_file_name", "ValueStatus::to_le_bytes"], "http": ["process_commands"], "election": ["election_eval", "start_election", "start_new_election", "election_win", "Databases::get_role", "Databases::is_eligible", "Databases::is_primary", "From<usize>@ClusterRole::from"], "store": STORE_FNS, "security": SECURITY_FNS, "pending": ["ReplicationMessage::new", "ReplicationMessage::ack", "ReplicationMessage::replicated", "ReplicationMessage::is_full_acknowledged",
                    "ReplicationMessage::count_replication", "ReplicationMessage::count_acknowledged", "ReplicationMessage::get_copy", "Databases::register_pending_opp",
                    "Databases::acknowledge_pending_opp", "Databases::get_pending_opp_copy"],
